@@ -129,6 +129,71 @@ def run_shard(params, rec):
                 base = jitlib.run(spec, backend, same, options=ref_opts, max_steps=300)
                 writer = "guest store (%s)" % where
                 wit["prog"] = sm.describe()
+            elif rng.random() < 0.35:
+                # ---- several writes on a looping program: the loop head starts a second translated block
+                # that overlaps the block translated from the program start
+                prog = jitlib.make_prog(spec, rng, pool, rng.randrange(5, 10), with_loop=True, fault_bias=0.0)
+                wit["patched"] = "multi-write history"
+                posname = "-"
+                real = [(o, l_, t, n) for o, l_, t, n in prog.instrs
+                        if n != "LOOPTAIL" and o not in prog.delay_slots]
+                jitter = jitlib.new_jitter(spec, backend, prog, opts)
+                all_regs = jitter.cpu.get_gpreg()
+                first = jitlib.run(spec, backend, prog, max_steps=300, jitter=jitter)
+                if first.budget or first.raised:
+                    rec.count("discarded_first_run")
+                    continue
+                entries = [L.CODE] + ([prog.loop[0]] if prog.loop else [])
+                image = bytearray(prog.code)
+                before = [x for x in real if prog.loop and x[0] < prog.loop[0]]
+                inside = [x for x in real if prog.loop and prog.loop[0] <= x[0] < prog.loop[1]]
+                order = []
+                if before and inside:
+                    order = [rng.choice(before), rng.choice(inside)]
+                order += rng.sample(real, min(len(real), rng.choice([0, 1])))
+                steps = []
+                for w, (o_, l_, t_, n_) in enumerate(order):
+                    cnd = [q for q in by_len.get(l_, []) if q[0] != bytes(image[o_ - L.CODE:o_ - L.CODE + l_])]
+                    if not cnd:
+                        continue
+                    nb, ntxt, _ = rng.choice(cnd)
+                    jitter.vm.set_mem(o_, nb)
+                    image[o_ - L.CODE:o_ - L.CODE + l_] = nb
+                    steps.append("write %x: %s -> %s" % (o_, t_, ntxt))
+                    if w < len(order) - 1 and rng.random() < 0.5:
+                        jitter.cpu.set_gpreg(all_regs)
+                        jitter.vm.set_exception(jitter.vm.get_exception() & 1)
+                        jitter.cpu.set_exception(0)
+                        e_ = rng.choice(entries)
+                        mid = rerun(jitlib, spec, prog, jitter, start=e_)
+                        steps.append("run from %x" % e_)
+                        if mid.budget:
+                            break
+                if len([x for x in steps if x.startswith("write")]) < 2:
+                    rec.count("discarded_no_same_length_instruction")
+                    continue
+                snap = jitlib.Outcome()
+                jitlib.snapshot(jitter, spec, snap)
+                entry = rng.choice(entries)
+                steps.append("final run from %x" % entry)
+                jitter.cpu.set_gpreg(all_regs)
+                jitter.vm.set_exception(jitter.vm.get_exception() & 1)
+                jitter.cpu.set_exception(0)
+                got = rerun(jitlib, spec, prog, jitter, start=entry)
+                fresh = jitlib.Prog(spec)
+                fresh.code, fresh.instrs, fresh.end, fresh.regs = bytes(image), prog.instrs, prog.end, dict(prog.regs)
+                names = {a_: (p_, n_) for a_, p_, d_, n_ in prog.pages}
+                fresh.pages = [(addr, names[addr][0], data, names[addr][1])
+                               for addr, (data, access) in sorted(snap.mem.items())]
+                want = jitlib.run(spec, backend, fresh, options=ref_opts, max_steps=300, start=entry)
+                unpatched = jitlib.Prog(spec)
+                unpatched.__dict__.update(fresh.__dict__)
+                unpatched.pages = [(a_, p_, (prog.code + d_[len(prog.code):]) if n_ == "code" else d_, n_)
+                                   for a_, p_, d_, n_ in fresh.pages]
+                base = jitlib.run(spec, backend, unpatched, options=ref_opts, max_steps=300, start=entry)
+                writer = "multi-write history"
+                wit["steps"] = steps
+                wit["prog"] = prog.describe()
             else:
                 writer = rng.choice(["set_mem instruction", "set_mem byte", "set_u8", "set_u16", "set_u32"])
                 jitter = jitlib.new_jitter(spec, backend, prog, opts)
@@ -229,7 +294,7 @@ def run_shard(params, rec):
                             maxline=maxline), limit=8)
 
 
-def rerun(jitlib, spec, prog, jitter):
+def rerun(jitlib, spec, prog, jitter, start=None):
     out = jitlib.Outcome()
     state = dict(steps=0)
 
@@ -241,7 +306,7 @@ def rerun(jitlib, spec, prog, jitter):
         return True
     jitter.exec_cb = count
     try:
-        jitter.run(spec.L.CODE)
+        jitter.run(start if start is not None else spec.L.CODE)
     except Exception as exc:
         out.raised = type(exc).__name__
     jitlib.snapshot(jitter, spec, out)
@@ -258,4 +323,6 @@ def floors(tier, counters, evaluations):
             miss.append("writer '%s' never exercised" % w)
     if not any(w.startswith("guest store") for w in writers):
         miss.append("guest store writer never exercised")
+    if "multi-write history" not in writers:
+        miss.append("multi-write histories never compared")
     return miss
